@@ -51,8 +51,6 @@ impl DealerSocketOutgoingProcessor {
     );
 
     loop {
-      let mut current_message_to_send_option: Option<FrameBatch> = None;
-
       tokio::select! {
         biased;
         _ = self.stop_signal.notified() => {
@@ -68,39 +66,41 @@ impl DealerSocketOutgoingProcessor {
               tracing::trace!("[DealerProc {}] Woke on peer_availability_notifier.", self.core_handle);
             },
           }
-        } => {
-          let mut queue_guard = self.pending_queue.lock().await;
-          if !queue_guard.is_empty() && self.outgoing_orchestrator.has_connections() {
-            current_message_to_send_option = queue_guard.pop_front();
-          }
-        }
+        } => {}
       }
 
       // Drain everything that is queued, not one message per wake-up: Notify stores at most
       // one permit, so a burst of queued messages produces fewer wake-ups than messages.
-      while let Some(zmtp_frames_for_logical_message) = current_message_to_send_option.take() {
-        tracing::trace!(
-          "[DealerProc {}] Processing message from outgoing queue ({} parts).",
-          self.core_handle,
-          zmtp_frames_for_logical_message.len()
-        );
-
-        match self.outgoing_orchestrator.route_message(zmtp_frames_for_logical_message, false).await {
+      let mut blocked = false;
+      loop {
+        // The queue lock is held across pop / try / push-back so that a concurrent send()
+        // never sees the queue empty while its head is merely in this task's hands (it
+        // would route directly and overtake it).
+        let mut queue_guard = self.pending_queue.lock().await;
+        if queue_guard.is_empty() || !self.outgoing_orchestrator.has_connections() {
+          break;
+        }
+        let zmtp_frames_for_logical_message = queue_guard.pop_front().unwrap();
+        // Non-blocking routing only: the blocking fallback of route_message() gives the message
+        // up when its SNDTIMEO expires, and these messages were already accepted from the
+        // application - they must stay queued until a peer has room.
+        match self.outgoing_orchestrator.try_route_sync(zmtp_frames_for_logical_message) {
           Ok(()) => {
-            let mut queue_guard = self.pending_queue.lock().await;
-            if self.outgoing_orchestrator.has_connections() {
-              current_message_to_send_option = queue_guard.pop_front();
-            }
-          }
-          Err((returned, _)) => {
-            tracing::debug!(
-              "[DealerProc {}] route_message failed (all peers full or no peers). Re-queuing.",
-              self.core_handle
-            );
-            self.pending_queue.lock().await.push_front(returned);
+            drop(queue_guard);
+            // room was made in the pending queue: let a send() waiting for queue space proceed
             self.queue_activity_notifier.notify_one();
           }
+          Err((returned, _)) => {
+            queue_guard.push_front(returned);
+            blocked = true;
+            break;
+          }
         }
+      }
+      if blocked {
+        // all peers full: retry shortly (their pipes drain without notifying this task)
+        tokio::time::sleep(Duration::from_millis(2)).await;
+        self.queue_activity_notifier.notify_one();
       }
     }
     tracing::debug!(
@@ -376,6 +376,12 @@ impl ISocket for DealerSocket {
       return Err((msg, ZmqError::ResourceLimitReached));
     }
     drop(guard);
+    // Messages waiting in the pending queue go first: take the slow path (which appends
+    // behind them) instead of routing this one directly past them.
+    match self.pending_outgoing_queue.try_lock() {
+      Ok(q) if q.is_empty() => {}
+      _ => return Err((msg, ZmqError::ResourceLimitReached)),
+    }
     let mut fb = FrameBatch::new();
     fb.push(msg);
     let wire_frames = self.prepare_full_multipart_send_sequence(fb);
@@ -618,6 +624,9 @@ impl DealerSocket {
 
     match self.outgoing_orchestrator.route_message(zmtp_wire_frames, false).await {
       Ok(()) => Ok(()),
+      // The blocking attempt timed out and consumed the message: it was not accepted -
+      // say so instead of queueing the (now empty) batch and reporting success.
+      Err((returned, e)) if returned.is_empty() => Err(e),
       Err((returned, _)) => {
         self.queue_message_or_error(returned, global_sndhwm, global_sndtimeo).await
       }
